@@ -1079,3 +1079,78 @@ def replay(ck, path):
         print('real encode :', real)
         print('model encode:', model_outcome(rep))
     return 0
+
+
+# ==================================================================================================
+# validator objects of the generated modules vs the model's validatorOf (structural comparison)
+# ==================================================================================================
+def dump_validator(ses, v):
+    """A real validator object in the shape the driver's `rt.vdump` prints a PTy."""
+    from stone.backends.python_rsrc import stone_validators as bv
+
+    def red(o):
+        r = getattr(o, '_redact', None)
+        if r is None:
+            return None
+        return ['hash' if isinstance(r, bv.HashRedactor) else 'blot', r.regex]
+    fl = {'n': False, 'ro': None, 'ri': None}
+    core = v
+    if isinstance(v, bv.Nullable):
+        fl['n'] = True
+        fl['ro'] = red(v)
+        core = v.validator
+    fl['ri'] = red(core)
+    name = type(core).__name__
+    if isinstance(core, bv.Integer):
+        return {'k': name, 'fl': fl, 'lo': core.minimum, 'hi': core.maximum}
+    if isinstance(core, bv.Real):
+        return {'k': name, 'fl': fl, 'lo': None if core.minimum is None else values.fbits(core.minimum),
+                'hi': None if core.maximum is None else values.fbits(core.maximum)}
+    if isinstance(core, bv.String):
+        return {'k': 'String', 'fl': fl, 'min': core.min_length, 'max': core.max_length, 'pat': core.pattern}
+    if isinstance(core, bv.Timestamp):
+        return {'k': 'Timestamp', 'fl': fl, 'fmt': core.format}
+    if isinstance(core, bv.List):
+        return {'k': 'List', 'fl': fl, 'item': dump_validator(ses, core.item_validator), 'min': core.min_items, 'max': core.max_items}
+    if isinstance(core, bv.Map):
+        return {'k': 'Map', 'fl': fl, 'key': dump_validator(ses, core.key_validator), 'val': dump_validator(ses, core.value_validator)}
+    if isinstance(core, (bv.Struct, bv.Union)):
+        return {'k': name, 'fl': fl, 'cls': ses.built.ref_by_cls.get(core.definition, '?' + core.definition.__name__)}
+    return {'k': name, 'fl': fl}
+
+
+def suite_vdump(ck, sessions):
+    """Every validator object the generated modules hold (top-level types, aliases, route types, every field and tag)
+    against `validatorOf` of the declared type: class, bounds, lengths, pattern, item / key / value validators,
+    nullability, redactors. This is what catches a dropped or swapped argument in generate_validator_constructor
+    for one particular combination, or a validator of the wrong class."""
+    from stone.ir import Struct, Union
+    for ses in sessions:
+        ops, meta = [], []
+        for label, ir in ses.types:
+            ops.append({'op': 'rt.vdump', 'ty': irdump.ir_ty(ir)})
+            meta.append((label, dump_validator(ses, ses.validator(label, ir)), None))
+        for ref, dt in ses.built.ir_by_ref.items():
+            cls = ses.built.cls_by_ref[ref]
+            for f in dt.fields:
+                if isinstance(dt, Struct):
+                    real = getattr(cls, f.name).validator
+                else:
+                    real = getattr(cls, '_%s_validator' % f.name)
+                ops.append({'op': 'rt.vdump', 'ty': irdump.ir_ty(f.data_type)})
+                meta.append(('%s.%s' % (ref, f.name), dump_validator(ses, real), irdump.redactor_of(f.redactor)))
+        reps = ses.run(ops, [])
+        for (label, real, field_red), rep in zip(meta, reps):
+            model = rep.get('ok')
+            if model is not None and field_red is not None:
+                # the field's own redactor sits on the outermost object of the field's validator
+                if model['fl']['n']:
+                    model['fl']['ro'] = field_red
+                else:
+                    model['fl']['ri'] = field_red
+            ck.case(('vdump', label, json.dumps(real, sort_keys=True)), nontrivial=real['k'] in ('List', 'Map', 'Struct', 'StructTree', 'Union') or real['fl']['n'])
+            ck.hist('rt.vdump.kind', real['k'])
+            if model == real:
+                ck.agree('rt.vdump')
+            else:
+                ck.disagree('rt.vdump', {'where': label, 'specs': [p for p, _ in ses.specs]}, real, model)
